@@ -199,7 +199,15 @@ NESTED_CONFIGS = [
     {'id': 'nested-short-first', 'ns': 'Foo', 'ident': ['Foo', 'FooExt'], 'sym': None,
      'unprefixed': False, 'includes': [], 'I': 'Foo', 's': 'foo', 'extra': [], 'only': NESTED_MENU},
 ]
-SMALL_CONFIGS = DEFAULT_PREFIX_CONFIGS + NESTED_CONFIGS
+# accept-unprefixed mode next to an included namespace that has EMPTY C prefixes (xlib style): unprefixed
+# declarations of the scanned headers still belong to the scanned namespace, as without that include.
+XDEP_MENU = ['TD_Text', 'TD_Widget', 'TD_BarThing', 'text_frob', 'init', 'fooey', 'widget_show', 'bar_thing_do',
+             'K_MAX', 'K_BAR_MIN']
+XDEP_CONFIGS = [
+    {'id': 'unprefixed-xdep', 'ns': 'Foo', 'ident': ['Foo'], 'sym': None, 'unprefixed': True,
+     'includes': ['xdep-1.0'], 'I': 'Foo', 's': 'foo', 'extra': [], 'only': XDEP_MENU},
+]
+SMALL_CONFIGS = DEFAULT_PREFIX_CONFIGS + NESTED_CONFIGS + XDEP_CONFIGS
 
 
 def config_menu(cfg):
